@@ -165,7 +165,9 @@ def _gen_op(rng, cfg):
     if kind == "tf_call":
         n = rng.randint(1, 12) if rng.random() < 0.85 else rng.randint(13, 120)
         arr = ["range", n] if rng.random() < 0.5 else ["vals", [round(rng.uniform(0.0, 30.0), 3) for _ in range(n)]]
-        return ["tf_call", rng.randrange(1000), rng.choice(TF_METHODS), arr]
+        # 5th element - how the caller holds its arrays: 0 a fresh array per call; 1 ONE work buffer per caller, refilled in
+        # place and handed over again (same object, new contents); 2 the same, and the caller then scales the returned array
+        return ["tf_call", rng.randrange(1000), rng.choice(TF_METHODS), arr, rng.choice([0, 0, 1, 1, 2])]
     if kind == "coulomb":
         return ["coulomb", rng.choice(ELEMENTS)]
     if kind == "perturb_rng":
@@ -1005,7 +1007,8 @@ def _op_tf_new(ctx, owner, op):
 def _op_tf_call(ctx, owner, op):
     from grid.onedgrid import UniformInteger
 
-    _, h, method, aspec = op
+    _, h, method, aspec = op[:4]
+    style = op[4] if len(op) > 4 else 0
     o = ctx.pick(owner, ("tf",), h)
     if o is None:
         ctx.log.add(ctx.step, "tf_call", "skip")
@@ -1041,7 +1044,27 @@ def _op_tf_call(ctx, owner, op):
         x = np.array(og.points, dtype=float)
         oc = _outcome(lambda: tf.transform_1d_grid(og))
     else:
-        oc = _outcome(lambda: getattr(tf, method)(x.copy()))
+        arg = x.copy()
+        if style:
+            # the caller's own work buffer (one per caller): refilled in place, the same object goes in again
+            wb = ctx.caller_seqs.get(("tf-workbuf", owner))
+            if wb is None:
+                wb = ctx.caller_seqs[("tf-workbuf", owner)] = x.copy()
+            else:
+                wb[...] = np.resize(x, wb.shape)
+                ctx.probes.hit("tf-work-buffer-refilled-and-reused")
+            x = wb.copy()  # (the oracle's own copy of what was asked)
+            arg = wb
+        oc = _outcome(lambda: getattr(tf, method)(arg))
+        if style and not np.array_equal(arg, x):
+            arg[...] = x  # (a callee writing into its argument is C20's business; the history continues with what was asked)
+    # an array handed out by an earlier call on this transform belongs to the caller: this call must not have changed it
+    held = m.get("held_result")
+    if held is not None and not np.array_equal(held[0], held[1], equal_nan=True):
+        ctx.violate("tf-earlier-result-changed", "tf_call", f"{m['cls']}:{method}", f"an array returned by an earlier {m['cls']}.{held[2]} call changed during a later {method} call")
+    m["held_result"] = None
+    if not is_grid and oc[0] == "ok" and isinstance(oc[1], np.ndarray):
+        m["held_result"] = (oc[1], oc[1].copy(), method)
     b_after = tf.b
     sig = f"{m['cls']}:{method}"
     if m["b"] is None and b_after is not None:
@@ -1091,6 +1114,11 @@ def _op_tf_call(ctx, owner, op):
         if m["calls_after_fix"] >= 2:
             ctx.nontrivial = True
     ctx.log.add(ctx.step, "tf_call", method, "ok", hash_array(got))
+    if style == 2 and not is_grid and isinstance(oc[1], np.ndarray) and oc[1].flags.writeable:
+        # ... and what a call returned is the caller's to use: scaled in place (r *= 0.5), later calls must not notice
+        oc[1][...] *= 0.5
+        m["held_result"] = None
+        ctx.probes.hit("tf-returned-array-edited-by-caller")
 
 
 def _op_coulomb(ctx, owner, op):
@@ -1452,7 +1480,9 @@ def _simpler_ops(op):
     if k in ("shell", "use", "edit", "reobserve", "tf_call", "mol") and op[1] != 0:
         yield [k, 0] + list(op[2:])
     if k == "tf_call" and op[3] != ["range", 2]:
-        yield ["tf_call", op[1], op[2], ["range", 2]]
+        yield ["tf_call", op[1], op[2], ["range", 2]] + list(op[4:])
+    if k == "tf_call" and len(op) > 4 and op[4]:
+        yield list(op[:4]) + [0]
     if k == "arm" and (op[4] != 1):
         yield ["arm", op[1], op[2], op[3], 1, op[5]]
 
